@@ -6,7 +6,7 @@ ASSUME = ["window output buffer never overflows", "single producer", "IDLETIMEOU
           "a late row's re-delivery obligation is imposed only when the first delivery was logged before the row was emitted",
           "closure of a window for late rows is judged by the last COMPLETED trigger pass (processed watermark), known from the pwm trace events",
           "far-future rows use now+40h; some runs place event time 20h ahead of the wall clock",
-          "session windows (TraceSessionLate): the engine keeps one fired session per key open for late events; a late event owed to an OLDER fired session of the key would be reported as a separate clause (not observed)"]
+          "session windows are decided by TraceSessionLate (late events only into a fired session of their own key while it is inside the allowance)"]
 
 
 def run(tier):
@@ -30,11 +30,14 @@ def run(tier):
     if tier != "quick":
         extra += [("tumbling", dict(size=2, moo=0, al=1, maxts=6, maxev=4, chancap=1)), ("session", dict(size=2, moo=1, al=0, maxts=5, maxev=4, chancap=1))]
     if tier == "quick":
-        splan = [("session", dict(size=2, moo=1, al=2, maxts=4, maxev=4, cap=1500, mc=dict(maxts=5, maxev=4)))]
-        sfree = [("session", dict(size=2, moo=1, al=2, keys=2), 40, 40), ("session", dict(size=3, moo=0, al=4, keys=2), 30, 40)]
+        splan = [("session", dict(size=2, moo=1, al=2, maxts=4, maxev=4, cap=1500, mc=dict(maxts=5, maxev=4))),
+                 ("session", dict(size=1, moo=0, al=4, maxts=2, maxev=5, onlylate=True, mc=dict(maxts=4, maxev=4)))]   # two fired sessions of a key inside the allowance
+        sfree = [("session", dict(size=2, moo=1, al=2, keys=2), 40, 40), ("session", dict(size=3, moo=0, al=4, keys=2), 30, 40),
+                 ("session", dict(size=1, moo=1, al=9, keys=2), 30, 50)]
     else:
-        splan = [("session", dict(size=2, moo=1, al=2, maxts=5, maxev=4, cap=30000)), ("session", dict(size=2, moo=0, al=3, maxts=5, maxev=4, cap=20000))]
-        sfree = [("session", dict(size=2, moo=1, al=2, keys=2), 300, 50), ("session", dict(size=3, moo=0, al=4, keys=2), 300, 60), ("session", dict(size=2, moo=2, al=1, keys=3), 200, 60)]
+        splan = [("session", dict(size=2, moo=1, al=2, maxts=5, maxev=4, cap=30000)), ("session", dict(size=2, moo=0, al=3, maxts=5, maxev=4, cap=20000)),
+                 ("session", dict(size=1, moo=0, al=4, maxts=3, maxev=5, onlylate=True, mc=dict(maxts=4, maxev=5)))]
+        sfree = [("session", dict(size=2, moo=1, al=2, keys=2), 300, 50), ("session", dict(size=3, moo=0, al=4, keys=2), 300, 60), ("session", dict(size=2, moo=2, al=1, keys=3), 200, 60), ("session", dict(size=1, moo=1, al=9, keys=2), 300, 60)]
     post = lambda res, rng, vh, scen: win.session_late_stage(res, rng, vh, scen, splan, sfree)
     return win.run_family("C02", tier, plan, free, ASSUME, extra, post=post)
 
